@@ -7,6 +7,8 @@ set -u
 export GOFLAGS=-mod=mod GOPROXY=off
 pat="${1:-}"
 jobs="${SELFTEST_JOBS:-3}"
+# the checks running side by side share the cores: each gets its part of the solver processes
+export GOVC_PAR="${GOVC_PAR:-$(( ($(nproc) + jobs - 1) / jobs ))}"
 one() { # kind patch
   kind=$1; p=$2
   base=$(basename $p .patch)
@@ -18,7 +20,7 @@ one() { # kind patch
   if ! git -C $WT apply $p 2>/dev/null; then echo "SKIP $base (patch does not apply)"
   elif ! (cd $WT && go build ./... >/dev/null 2>&1); then echo "SKIP $base (does not compile)"
   else
-    GOVC_REPO=$WT GOVC_OUT=$OUT /verif/bin/govc check -p $prop > $OUT/out 2> $OUT/err
+    GOVC_REPO=$WT GOVC_OUT=$OUT ${GOVC_BIN:-/verif/bin/govc} check -p $prop > $OUT/out 2> $OUT/err
     rc=$?
     if [ $kind = mutant ]; then
       if [ $rc -eq 1 ] && grep -q "^VIOLATION property=$prop" $OUT/out; then
